@@ -1,7 +1,7 @@
 SPECIFICATION Spec
 CONSTANT Products <- SmallProducts
 CONSTANT StoreKinds = {"dir", "deny", "mapping"}
-CONSTANT TranslateImageKeyError = TRUE
+CONSTANT TranslateImageKeyError = FALSE
 CONSTANT NoFaults = FALSE
 INVARIANT FailStopFiles
 INVARIANT MissingIsOSError
